@@ -4,7 +4,7 @@ From Coq Require Import List NArith ZArith Bool.
 Import ListNotations.
 Require Import Celma.Common.Res Celma.ArgH.Key Celma.ArgH.Table Celma.ArgH.TableProofs Celma.ArgH.Lex
                Celma.ArgH.Handler Celma.ArgH.Spell Celma.ArgH.Groups Celma.ArgH.GroupsProofs
-               Celma.ArgH.GenSim Celma.ArgH.GroupsSim.
+               Celma.ArgH.UseProofs Celma.ArgH.GenSim Celma.ArgH.GroupsSim Celma.ArgH.MergeProofs Celma.ArgH.GroupsMerge.
 
 (** Each word is handled by exactly the handler that defines its key: when
     the members before [c] answer "unknown" and [c] consumes the element, the
@@ -146,6 +146,79 @@ Proof.
   - apply (gsp_flags gname (glname grp1) (gsname grp1) (gtnone grp1) (gtreq grp1)
              [((0, 1), 114%N)] [] []); [discriminate| |constructor].
     repeat constructor; cbn; try discriminate; vm_compute; auto.
+Qed.
+
+(** THE PROPERTY as one theorem (ArgH/MergeProofs.v, GroupsMerge.v).
+    [merged cs] is the ONE handler that owns the arguments and the handler
+    constraints of all members, in member order.  For every group
+      - whose members do not refer to each other ([separated]: no requires /
+        excludes list and no handler constraint of a member names an argument
+        of another member - each member has its own constraint container),
+      - with handler constraints all_of / any_of / one_of ([key_cons]),
+    every line [gus] of uses named by keys of defined arguments and every
+    spelling [ws] of it that designates the same arguments in the group and in
+    the single handler (always the case for exact keys; for abbreviations this
+    is where the known finding lives):
+      the group accepts the line  <=>  the single handler accepts it,
+      and then every destination holds the same value. *)
+Theorem C08_group_equals_one_handler :
+  forall cs initss gus ws,
+    cs <> [] -> all_fixed cs -> separated cs -> key_cons cs ->
+    length initss = length cs ->
+    (forall m, m < length cs -> length (nth m initss []) = length (args (member cs m))) ->
+    Forall keyed gus -> Forall (fun u => valid_name cs (name u)) gus ->
+    gspell_grp cs gus ws -> spell (merged cs) (map (globalize cs) gus) ws ->
+    is_ok (eval_group false false cs initss ws) = is_ok (eval_arguments (merged cs) (concat initss) [] None ws) /\
+    forall ss' s', eval_group false false cs initss ws = Ok ss' ->
+                   eval_arguments (merged cs) (concat initss) [] None ws = Ok s' ->
+                   arts s' = concat (map arts ss').
+Proof. exact group_equals_merged. Qed.
+Print Assumptions C08_group_equals_one_handler.
+
+(** the single-handler half on its own: a handler whose arguments fall into two
+    blocks that do not refer to each other evaluates a line exactly as the
+    blocks evaluate their parts *)
+Theorem C08_one_handler_splits :
+  forall c1 c2, separate c1 c2 -> forall ic us s s1 s2,
+    joined c1 c2 s s1 s2 -> Forall (fun u => use_index u < length (args c1) + n2 c2) us ->
+    (forall s', fold_uses (merge2 c1 c2) s ic us = Ok s' ->
+       exists s1' s2', fold_uses c1 s1 ic (part1 c1 us) = Ok s1' /\ fold_uses c2 s2 ic (part2 c1 us) = Ok s2' /\
+                       joined c1 c2 s' s1' s2') /\
+    (forall s1' s2', fold_uses c1 s1 ic (part1 c1 us) = Ok s1' -> fold_uses c2 s2 ic (part2 c1 us) = Ok s2' ->
+       exists s', fold_uses (merge2 c1 c2) s ic us = Ok s' /\ joined c1 c2 s' s1' s2').
+Proof. exact fold_merge. Qed.
+Print Assumptions C08_one_handler_splits.
+
+(** Non-vacuity: grp1 (member a: -l requires -r, -r; member b: -x) meets the
+    hypotheses with the line "-lx -r"; group and single handler store the same. *)
+Ltac finite_keys :=
+  cbn; intros;
+  repeat match goal with
+         | H : _ \/ _ |- _ => destruct H
+         | H : False |- _ => destruct H
+         end; subst; reflexivity.
+
+Example C08_nonvacuous_one_handler :
+  separated grp1 /\ key_cons grp1 /\
+  Forall (fun u => valid_name grp1 (name u)) [GFlag (0, 0); GFlag (1, 0); GFlag (0, 1)] /\
+  spell (merged grp1) (map (globalize grp1) [GFlag (0, 0); GFlag (1, 0); GFlag (0, 1)]) [[45; 108; 120]; [45; 114]]%N /\
+  (exists ss s, eval_group false false grp1 grp1_inits [[45; 108; 120]; [45; 114]]%N = Ok ss /\
+                eval_arguments (merged grp1) (concat grp1_inits) [] None [[45; 108; 120]; [45; 114]]%N = Ok s /\
+                map val (arts s) = [VBool true; VBool true; VBool true] /\ arts s = concat (map arts ss)).
+Proof.
+  split; [|split; [|split; [|split]]].
+  - cbn [separated grp1]. split; [|split; [|exact I]].
+    + split; split; finite_keys.
+    + split; split; finite_keys.
+  - repeat constructor.
+  - repeat constructor; cbn; auto.
+  - cbn [map globalize glob fst snd grp1 length args mk_cfg Nat.add].
+    apply (sp_flags (merged grp1) [(0, 108%N); (2, 120%N)] [UFlag 1] [[45; 114]%N]); [discriminate| |].
+    + repeat constructor; cbn; try discriminate; vm_compute; auto.
+    + apply (sp_flags (merged grp1) [(1, 114%N)] [] []); [discriminate| |constructor].
+      repeat constructor; cbn; try discriminate; vm_compute; auto.
+  - eexists. eexists. split; [vm_compute; reflexivity|]. split; [vm_compute; reflexivity|].
+    split; vm_compute; reflexivity.
 Qed.
 
 (** Known finding, recorded in known_findings.json (group-abbrev-per-member):
